@@ -57,6 +57,11 @@ GatewayClass(valid, maj, min) == IF ~valid THEN "1.4" ELSE ObsClass(Floor(maj, m
 NodeClass(valid, maj, min) ==
   IF ~valid \/ ~Ge(<<maj, min>>, <<1, 4>>) THEN "rejected"
   ELSE LET f == Floor(maj, min) IN IF f \in {"2.0", "2.1", "2.2"} THEN "2.0" ELSE f
+\* version assigned to a node that was known with another version before (re-presentation of an accepted frame, restored
+\* state, application code): the rule applies to the new value alone - invalid or older than 1.4 means 1.4
+NodeAttrClass(valid, maj, min) ==
+  IF ~valid \/ ~Ge(<<maj, min>>, <<1, 4>>) THEN "1.4"
+  ELSE LET f == Floor(maj, min) IN IF f \in {"2.0", "2.1", "2.2"} THEN "2.0" ELSE f
 
 FloorMonotone == \A a \in 0..3, b \in 0..12, c \in 0..3, d \in 0..12 :
    Ge(<<c, d>>, <<a, b>>) => LET x == Floor(a, b)  y == Floor(c, d) IN
